@@ -102,6 +102,16 @@ chk("C07", "symbolic sequence analysis over the syntax tree: values popped vs va
     "Trusted: syn parse, rustc MIR; the walker's idiom set (vec! literals, pushes, for-loops over args, mirrored pop vectors, optional pop groups) - a construction outside it is reported, not assumed.",
     "DESIGN.md section 4 C07")
 
+chk("C12", "table inverse check (escape/unescape match arms) + exact regular-language decision: product of the printed-literal DFA with STRING_RE's leftmost-first DFA (regex-automata), DFA inclusion for float/int text",
+    "Lexical clauses decided exactly for all strings: every literal escape_string_literal can print is read back by the lexer as exactly one token ending at its closing quote, whatever follows it, and unescape inverts escape row by row; printed finite floats and ints are whole number tokens. Not sampled; a failing tree yields a witness literal.",
+    "Trusted: regex-automata's DFA (same engine family as the regex crate), syn parse, Rust's float Display shape. Compound values and parse->equal-value are not decided.",
+    "DESIGN.md section 4 C12")
+
+chk("C23", "regex newline-reachability by DFA search selects multi-line token kinds; syntax provenance rules for end line/column of their Position literals and for every byte-offset advance / slice bound in the lexer loop; field-shape of Position::merge and CheckDiagnostic export",
+    "Lexical clauses for all input texts: offsets advance only by character-boundary quantities, multi-line tokens take their end line/column from the end offset, merge pairs start fields with the first operand and end fields with the later end, exported line numbers are uniformly 1-based. Other position arithmetic is not decided.",
+    "Trusted: syn parse, regex-automata DFA. Positions computed by checker fixes and the LSP layer are out of scope.",
+    "DESIGN.md section 4 C23")
+
 ENGINES = [
  {"name": "gfacts", "path": "tools/gfacts", "kind_free_text": "rustc_private driver (nightly) dumping the type-checked MIR (CFG, resolved callees, asserts, places with field names) of every function of the garden crate as JSON; run as RUSTC_WORKSPACE_WRAPPER under cargo +nightly check on /repo's current tree"},
  {"name": "gshape", "path": "tools/gshape", "kind_free_text": "syn-2 syntax tree dumper (match arms, patterns, literals, struct initialisers) for table/shape rules"},
